@@ -14,7 +14,7 @@ PID = "C03"
 RULE = (
     "full cross product fabric(6) x regime(2) x velocity-gradient alphabet x volume-vector "
     "letters x orientation sets (whole 408-letter orbit-closed alphabet as one texture; the 24 "
-    "cube rotations alone = exact zero invariants; tilings to n_grains 1..1e5) x scale letters "
+    "cube rotations alone = exact zero invariants; tilings to n_grains 1..1e5 incl. the powers of two 4096, 8192, 16384, 65536) x scale letters "
     "(normalised, 1e-12, 1e6, raw) x parameter settings (<=1 deviation); each case calls "
     "derivatives for 6 (M*, phi) settings; plus fabric x regime x the 15 whole-number gradients x the "
     "24 cube rotations x 3 one-grain-holds-all volume vectors with the orientations / volumes / "
@@ -35,7 +35,7 @@ BOUND = {
 MPHI = [(125.0, 1.0), (0.0, 1.0), (1.0, 1.0), (200.0, 1.0), (125.0, 0.3), (125.0, 1e-3)]
 VOLS = ["uniform", "dominant", "onezero", "geometric", "allbutone"]
 SCALE_VGS = ["ss_xz", "ps_xy+", "ax_z-", "sub_yx", "rigid_xz", "gen0", "gens_tr"]
-TILES = [1, 2, 3, 10, 100, 1000, 10000, 100000]
+TILES = [1, 2, 3, 10, 100, 1000, 4096, 8192, 10000, 16384, 65536, 100000]
 
 
 def ALPHABETS():
